@@ -48,7 +48,7 @@ def nondegCheck (S : List (Tri α)) : Bool :=
 
 /-! ### directed edges -/
 
-def triEdges (t : Tri α) : List (V3 α × V3 α) := [(t.a, t.b), (t.b, t.c), (t.c, t.a)]
+def edgesOf (t : Tri α) : List (V3 α × V3 α) := [(t.a, t.b), (t.b, t.c), (t.c, t.a)]
 
 def edgeRevEqb (e f : V3 α × V3 α) : Bool := v3Eqb e.1 f.2 && v3Eqb e.2 f.1
 
@@ -63,7 +63,7 @@ def cancelEdges : Nat → List (V3 α × V3 α) → Bool
 /-- **closed-surface checker**: every directed edge `(p, q)` of a triangle of `S` is matched by a
 directed edge `(q, p)` of another triangle. -/
 def closedCheck (S : List (Tri α)) : Bool :=
-  let E := S.flatMap triEdges
+  let E := S.flatMap edgesOf
   cancelEdges E.length E
 
 /-- cone tetrahedra from the apex `p` over the triangles of `S` -/
